@@ -108,7 +108,7 @@ func Run(rng *rand.Rand, o Opts) *Outcome {
 
 	ropts := []options.Option{options.WithMetrics(false)}
 	if o.Cached {
-		ropts = append(ropts, options.WithCachedResource(NS, res.TypeA), options.WithCachedResource(NS, res.TypeB))
+		ropts = append(ropts, options.WithCachedResource(NS, res.TypeA), options.WithCachedResource(NS, res.TypeB), options.WithCachedResource(NS, res.TypeC))
 	}
 
 	rt, err := runtime.NewRuntime(st, zap.NewNop(), ropts...)
